@@ -541,7 +541,9 @@ impl FixtureDatabase {
                 }
 
                 // Then add fixtures imported into the conftest
-                if self.file_cache.contains_key(&conftest_path) {
+                // (check both filesystem and file cache for conftest existence, exactly as
+                // find_closest_definition does: a closed or evicted document is still there)
+                if conftest_path.exists() || self.file_cache.contains_key(&conftest_path) {
                     let mut visited = HashSet::new();
                     let imported_fixtures =
                         self.get_imported_fixtures(&conftest_path, &mut visited);
